@@ -111,6 +111,8 @@ def register_block_downsample(reg):
              "result._header.nchans == self._header.nchans // ffactor and result._header.nsamples == self._header.nsamples // tfactor "
              "and result._header.tsamp == self._header.tsamp * tfactor and result._header.foff == self._header.foff * ffactor "
              "and result._data.shape[0] == result._header.nchans and result._data.shape[1] == result._header.nsamples")
+    # C08: dm records the DM that was applied - decimating a dedispersed block does not forget it
+    c.ensure("applied DM kept", "result._dm == self._dm")
     reg.add(c)
 
 
